@@ -245,7 +245,14 @@ func probeSpec(b *histB) int {
 }
 
 func rangeScenarios(c *CheckRun) []*Scenario {
-	base := cheapBig(histFamiliesW(c, true, true))
+	var base []histB
+	for _, b := range cheapBig(histFamiliesW(c, true, true)) {
+		if (b.kind == kindF32 || b.kind == kindF64) && len(b.ops) > 1 && c.Tier == "quick" {
+			continue // two symbolic float keys plus two symbolic float bounds time the solver out; thorough tier only
+		}
+		base = append(base, b)
+	}
+	base = append(base, histB{kind: kindF32, ops: [][2]int{{opInsert, 0}}, label: "F-num n=1"}, histB{kind: kindF64, ops: [][2]int{{opInsert, 0}}, label: "F-num n=1"})
 	i := 0
 	out := withMask(base, ckRange, func(b *histB) []int {
 		i++
@@ -263,6 +270,11 @@ func rangeScenarios(c *CheckRun) []*Scenario {
 		}
 		return []int{sa, sb}
 	})
+	for _, s := range out {
+		if s.Params[len(s.Params)-1] == -1 {
+			s.MayBeVacuous = true // "empty end with a start above the maximum" is carved out by assumption
+		}
+	}
 	// empty trees, every kind
 	kinds := append([]int{kindAlphaB, kindAlphaS}, numericQuick...)
 	if c.Tier != "quick" {
@@ -375,7 +387,7 @@ func pureScenarios(c *CheckRun) []*Scenario {
 		}
 		var pick []int
 		if c.Tier == "quick" {
-			pick = []int{whichs[i%len(whichs)], whichs[(i+3)%len(whichs)]}
+			pick = []int{whichs[i%len(whichs)]}
 			i++
 		} else {
 			pick = whichs
@@ -384,8 +396,23 @@ func pureScenarios(c *CheckRun) []*Scenario {
 			bb := b
 			bb.mask = ckPure
 			bb.probes = nil
-			bb.extra = []int{w, probeSpec(&b), numKeySpec(&b)}
-			out = append(out, bb.scn())
+			spec := probeSpec(&b)
+			if w == 7 {
+				// Insert of a present key: take the shape of a key the history inserts
+				for _, o := range b.ops {
+					if o[0] == opInsert {
+						spec = o[1]
+					} else if o[0] == opInsertC {
+						spec = o[1] | 1<<30
+					}
+				}
+			}
+			bb.extra = []int{w, spec, numKeySpec(&b)}
+			s := bb.scn()
+			if w >= 6 {
+				s.MayBeVacuous = true // needs an absent / a present key of that shape
+			}
+			out = append(out, s)
 		}
 	}
 	return out
